@@ -1393,26 +1393,34 @@ Proof.
   - split; vm_compute; reflexivity.
 Qed.
 
-(* the same, produced by the primary's own fetch policy: getWALEntriesFromSequence returns at
-   most 100 entries, the replica acknowledges the last number, the next fetch starts behind it *)
+(* the same, produced by the primary's own fetch policy as it was before /repo f62340e:
+   getWALEntriesFromSequence returned the first 100 entries, the replica acknowledged the last
+   number, the next fetch started behind it. Kept as a regression note: the witness log below is
+   the corpus case poll-limit-regression, which the repaired fetch now delivers completely
+   (fetch_repaired_sat). *)
 Fixpoint singles (n : nat) (s : N) : list wentry :=
   match n with O => [] | S n' => mkput s 107 (s mod 256) :: singles n' (s + 1) end.
 Definition Lpoll : list wentry := singles 99 1 ++ [mkput 100 116 1; mkput 100 117 2; mkput 101 122 9].
-Definition poll_sched : list event :=
-  [EDeliver (poll Lpoll 1) None; EDeliver (poll Lpoll 101) None].
 
-Theorem poll_limit_refuted :
-  log_ok 0 Lpoll = true /\
-  a_max (r_ap (s_rep (run 0 [EDeliver (poll Lpoll 1) None]))) = 100 /\
-  nth_error (s_applied (run 0 poll_sched)) 100 = Some (mkput 101 122 9) /\
-  nth_error Lpoll 100 = Some (mkput 100 117 2) /\
-  forall n, s_applied (run 0 poll_sched) <> firstn n Lpoll.
-Proof.
-  split; [vm_compute; reflexivity|]. split; [vm_compute; reflexivity|].
-  split; [vm_compute; reflexivity|]. split; [vm_compute; reflexivity|].
-  apply (not_prefix_by_position _ Lpoll 100 (mkput 101 122 9) (mkput 100 117 2)); try (vm_compute; reflexivity).
-  discriminate.
-Qed.
+Module BeforeFixes.
+  Definition poll_flat (L : list wentry) (from : N) : list pentry :=
+    map to_proto (firstn PollLimit (filter (fun e => from <=? w_seq e) L)).
+  Definition poll_sched : list event :=
+    [EDeliver (poll_flat Lpoll 1) None; EDeliver (poll_flat Lpoll 101) None].
+
+  Theorem poll_limit_refuted :
+    log_ok 0 Lpoll = true /\
+    a_max (r_ap (s_rep (run 0 [EDeliver (poll_flat Lpoll 1) None]))) = 100 /\
+    nth_error (s_applied (run 0 poll_sched)) 100 = Some (mkput 101 122 9) /\
+    nth_error Lpoll 100 = Some (mkput 100 117 2) /\
+    forall n, s_applied (run 0 poll_sched) <> firstn n Lpoll.
+  Proof.
+    split; [vm_compute; reflexivity|]. split; [vm_compute; reflexivity|].
+    split; [vm_compute; reflexivity|]. split; [vm_compute; reflexivity|].
+    apply (not_prefix_by_position _ Lpoll 100 (mkput 101 122 9) (mkput 100 117 2)); try (vm_compute; reflexivity).
+    discriminate.
+  Qed.
+End BeforeFixes.
 
 (* (c) one batch that writes A, B, A, delivered one entry per response: the third entry looks
    like a repetition of the first and is skipped for good *)
@@ -1895,3 +1903,157 @@ Example cursor_run_sat :
   cursors (mkS (new_replica 0) []) evs = [1; 2; 2; 2] /\
   beta (r_ap (s_rep (run 0 evs))) = 2.
 Proof. split; vm_compute; reflexivity. Qed.
+
+(* ================================================================================ *)
+(* 11. the primary's fetch (getWALEntriesFromSequence since f62340e) respects         *)
+(*     transaction boundaries                                                        *)
+(* ================================================================================ *)
+
+Lemma split_at_number : forall L p from, chain p L = true ->
+  L = filter (fun e => w_seq e <? from) L ++ filter (fun e => from <=? w_seq e) L.
+Proof.
+  induction L as [|a L IH]; intros p from Hc; [reflexivity|].
+  cbn [chain] in Hc. apply andb_prop in Hc. destruct Hc as [_ Hc].
+  destruct (N.lt_ge_cases (w_seq a) from) as [Hlt|Hge].
+  - cbn [filter].
+    rewrite (proj2 (N.ltb_lt _ _) Hlt). rewrite (proj2 (N.leb_gt _ _) Hlt).
+    cbn [app]. f_equal. apply (IH (w_seq a)). exact Hc.
+  - assert (All : forall x, In x (a :: L) -> from <= w_seq x).
+    { intros x [<-|Hx]; [exact Hge|]. pose proof (chain_ge _ _ Hc x Hx). lia. }
+    rewrite (filter_none (fun e => w_seq e <? from) (a :: L)).
+    + rewrite filter_all; [reflexivity|]. intros x Hx. apply N.leb_le. apply All. exact Hx.
+    + intros x Hx. apply N.ltb_ge. apply All. exact Hx.
+Qed.
+
+Lemma same_number_split : forall s l, exists rest,
+  l = same_number s l ++ rest /\ (forall x, In x (same_number s l) -> w_seq x = s) /\
+  match rest with [] => True | y :: _ => w_seq y <> s end.
+Proof.
+  induction l as [|e l IH].
+  - exists []. cbn [same_number app]. split; [reflexivity|]. split; [intros x []|exact I].
+  - cbn [same_number]. destruct (w_seq e =? s) eqn:E.
+    + destruct IH as (rest & E1 & E2 & E3). exists rest. cbn [app]. split; [f_equal; exact E1|].
+      split; [|exact E3]. intros x [<-|Hx]; [apply N.eqb_eq; exact E|apply E2; exact Hx].
+    + exists (e :: l). cbn [app]. split; [reflexivity|]. split; [intros x []|apply N.eqb_neq; exact E].
+Qed.
+
+(* what the primary fetches for a replica is a piece of the log between two boundaries *)
+Theorem fetch_aligned : forall start L from, log_ok start L = true ->
+  exists P Q, L = P ++ fetch L from ++ Q /\ bnd P (fetch L from ++ Q) /\ bnd (P ++ fetch L from) Q.
+Proof.
+  intros start L from HL.
+  pose proof HL as HL0. apply log_ok_inv in HL. destruct HL as (_ & Hc & _).
+  pose proof (split_at_number L start from Hc) as ES.
+  set (P := filter (fun e => w_seq e <? from) L) in *.
+  set (all := filter (fun e => from <=? w_seq e) L) in *.
+  assert (HP : forall x, In x P -> w_seq x < from).
+  { intros x Hx. apply filter_In in Hx. destruct Hx as [_ Hx]. apply N.ltb_lt. exact Hx. }
+  assert (Hall : forall x, In x all -> from <= w_seq x).
+  { intros x Hx. apply filter_In in Hx. destruct Hx as [_ Hx]. apply N.leb_le. exact Hx. }
+  unfold fetch. fold all.
+  destruct (Nat.ltb PollLimit (length all)) eqn:Elim.
+  - apply PeanoNat.Nat.ltb_lt in Elim.
+    set (hd := firstn PollLimit all). set (tl := skipn PollLimit all).
+    set (s := w_seq (last hd (mkW 0 0 [] []))).
+    destruct (same_number_split s tl) as (rest & T1 & T2 & T3).
+    set (sn := same_number s tl) in *.
+    assert (Eall : all = hd ++ sn ++ rest).
+    { rewrite <- T1. unfold hd, tl. symmetry. apply firstn_skipn. }
+    exists P, rest. split; [|split].
+    + rewrite ES at 1. rewrite Eall. rewrite <- !app_assoc. reflexivity.
+    + intros M' x y R' E1 E2.
+      assert (Hx : w_seq x < from) by (apply HP; rewrite E1; apply in_or_app; right; left; reflexivity).
+      assert (Hy : from <= w_seq y).
+      { apply Hall. rewrite Eall, app_assoc, E2. left. reflexivity. }
+      lia.
+    + intros M' x y R' E1 E2. rewrite E2 in T3.
+      assert (Hhd : length hd = PollLimit) by (unfold hd; rewrite firstn_length; lia).
+      assert (Hx : w_seq x = s).
+      { destruct (exists_last_or_nil _ sn) as [Esn|(sn' & z & Esn)].
+        - rewrite Esn, app_nil_r in E1.
+          destruct (exists_last_or_nil _ hd) as [Eh|(hd' & h & Eh)].
+          + rewrite Eh in Hhd. discriminate.
+          + unfold s. rewrite Eh, last_last. rewrite Eh, app_assoc in E1.
+            apply app_inj_tail in E1. destruct E1 as [_ E1]. rewrite <- E1. reflexivity.
+        - rewrite Esn, !app_assoc in E1. apply app_inj_tail in E1. destruct E1 as [_ E1].
+          rewrite <- E1. apply T2. rewrite Esn. apply in_or_app. right. left. reflexivity. }
+      rewrite Hx. intros C. apply T3. symmetry. exact C.
+  - exists P, []. rewrite app_nil_r. split; [exact ES|]. split.
+    + intros M' x y R' E1 E2.
+      assert (Hx : w_seq x < from) by (apply HP; rewrite E1; apply in_or_app; right; left; reflexivity).
+      assert (Hy : from <= w_seq y) by (apply Hall; rewrite E2; left; reflexivity).
+      lia.
+    + intros M' x y R' _ E2. discriminate.
+Qed.
+
+(* a piece between two boundaries, as an event of a boundary-respecting schedule *)
+Lemma piece_aligned_event : forall L P D Q f, L = P ++ D ++ Q -> bnd P (D ++ Q) -> bnd (P ++ D) Q ->
+  aligned_event L (EDeliver (tp D) f).
+Proof.
+  intros L P D Q f EL Hb1 Hb2. cbn [aligned_event].
+  exists (length P), (length P + length D)%nat.
+  assert (F1 : firstn (length P) L = P) by (rewrite EL; apply firstn_app_exact; reflexivity).
+  assert (S1 : skipn (length P) L = D ++ Q) by (rewrite EL; apply skipn_app_exact; reflexivity).
+  assert (F2 : firstn (length P + length D) L = P ++ D).
+  { rewrite EL, app_assoc. apply firstn_app_exact. rewrite app_length. reflexivity. }
+  assert (S2 : skipn (length P + length D) L = Q).
+  { rewrite EL, app_assoc. apply skipn_app_exact. rewrite app_length. reflexivity. }
+  split; [lia|]. unfold cut_ok. rewrite F1, S1, F2, S2.
+  split; [exact Hb1|]. split; [exact Hb2|].
+  unfold seg. rewrite S1.
+  replace (length P + length D - length P)%nat with (length D) by lia.
+  rewrite firstn_app_exact by reflexivity. reflexivity.
+Qed.
+
+Theorem poll_aligned : forall start L from f, log_ok start L = true ->
+  aligned_event L (EDeliver (poll L from) f).
+Proof.
+  intros start L from f HL. destruct (fetch_aligned start L from HL) as (P & Q & E1 & E2 & E3).
+  unfold poll. apply (piece_aligned_event L P (fetch L from) Q f); assumption.
+Qed.
+
+(* C13 for everything the repaired primary sends by polling: any sequence of fetches from any
+   sequence numbers (also stale or repeated ones), any failing applies, any resets *)
+Theorem prefix_polls : forall start L evs, start + 2 < U64 -> log_ok start L = true ->
+  Forall (fun ev => match ev with
+                    | EDeliver es _ => exists from, es = poll L from
+                    | EReset => True
+                    | ERestart => False
+                    end) evs ->
+  let s := run start evs in
+  exists n, s_applied s = firstn n L /\
+    a_max (r_ap (s_rep s)) <= gs start (firstn n L) /\
+    forall e, In e (skipn n L) -> a_max (r_ap (s_rep s)) < w_seq e.
+Proof.
+  intros start L evs Hst HL Hev. apply prefix_aligned; try assumption.
+  apply (Forall_impl _ (P := fun ev => match ev with
+                    | EDeliver es _ => exists from, es = poll L from
+                    | EReset => True
+                    | ERestart => False
+                    end)); [|exact Hev].
+  intros [es f| |] H; [|exact I|exact H].
+  destruct H as (from & ->). apply (poll_aligned start). exact HL.
+Qed.
+
+(* the witness log of BeforeFixes.poll_limit_refuted under the repaired fetch *)
+Example fetch_repaired_sat :
+  length (poll Lpoll 1) = 101%nat /\
+  s_applied (run 0 [EDeliver (poll Lpoll 1) None; EDeliver (poll Lpoll 101) None]) = Lpoll /\
+  cursors (mkS (new_replica 0) []) [EDeliver (poll Lpoll 1) None; EDeliver (poll Lpoll 101) None] = [100; 101].
+Proof. split; [vm_compute; reflexivity|]. split; vm_compute; reflexivity. Qed.
+
+(* Why a delivery cut inside a transaction cannot be handled by ANY applier that reports a
+   sequence number: the wire entries of "the whole one-entry transaction 1" and of "the first
+   half of the two-entry transaction 1" are the same bytes. Whatever a replica computes from
+   what it received, it reports the same number in both situations: it cannot both report 1 in
+   the first (everything is applied) and less than 1 in the second (number 1 is incomplete). *)
+Definition Lone : list wentry := [mkput 1 97 1].
+Definition Ltwo : list wentry := [mkput 1 97 1; mkput 1 98 2].
+
+Theorem cut_indistinguishable : forall report : list (list pentry) -> N,
+  ~ (report [seg Lone 0 1] = 1 /\ report [seg Ltwo 0 1] < 1).
+Proof.
+  intros report [H1 H2].
+  assert (E : seg Ltwo 0 1 = seg Lone 0 1) by reflexivity.
+  rewrite E, H1 in H2. lia.
+Qed.
